@@ -482,6 +482,279 @@ theorem detectCircular_spec (rt : RefTypes) : ∀ (cs : List CClass) (edges fina
           rw [he] at he0; cases he0
           exact ⟨c', List.mem_cons_of_mem _ hc'm, hin, e, he, t0 ▸ CReach.anti m1 hr⟩
 
+/-! ### a second pass changes nothing -/
+
+/-- every reference reachable from `start` has a cache entry -/
+def Entries (edges : List TEdge) (rt : RefTypes) (start : Nat) : Prop :=
+  ∀ x, CReach edges rt start x → (List.lookup x rt).isSome = true
+
+theorem Entries.mono {edges edges' : List TEdge} {rt : RefTypes} {s : Nat} (h : Entries edges rt s)
+    (hm : Mono edges edges') : Entries edges' rt s :=
+  fun x hx => h x (CReach.anti hm hx)
+
+/-- a search that ends with `False` has looked up every reachable reference -/
+theorem circLoop_false_entries (edges : List TEdge) (rt : RefTypes) (start stop : Nat) :
+    ∀ (fuel : Nat) (path stack : List Nat),
+      circLoop edges rt stop fuel path stack = .ok false →
+      (∀ x ∈ path, ∀ y, CEdge edges rt x y → y ∈ path ∨ y ∈ stack) →
+      (start ∈ path ∨ start ∈ stack) →
+      (∀ x ∈ path, (List.lookup x rt).isSome = true) →
+      Entries edges rt start
+  | 0, _, _, h, _, _, _ => by simp [circLoop] at h
+  | fuel + 1, path, [], _, h2, h3, hp => by
+    have hstart : start ∈ path := by
+      rcases h3 with h | h
+      · exact h
+      · cases h
+    intro x hx
+    have hclosed : ∀ x, CReach edges rt start x → x ∈ path := by
+      intro x hx
+      induction hx with
+      | refl => exact hstart
+      | step _ he ih =>
+        rcases h2 _ ih _ he with h | h
+        · exact h
+        · cases h
+    exact hp x (hclosed x hx)
+  | fuel + 1, path, ref :: rest, h, h2, h3, hp => by
+    rw [circLoop] at h
+    by_cases hstop : path.contains stop = true
+    · rw [if_pos hstop] at h; cases h
+    · rw [if_neg hstop] at h
+      cases hl : List.lookup ref rt with
+      | none => simp [hl] at h
+      | some ids =>
+        simp only [hl] at h
+        obtain ⟨path', hp'⟩ : ∃ p, p = (if path.contains ref then path else ref :: path) := ⟨_, rfl⟩
+        rw [← hp'] at h
+        have hsub : ∀ x, x ∈ path' ↔ x ∈ path ∨ x = ref := by
+          intro x
+          rw [hp']
+          by_cases hc : path.contains ref = true
+          · simp only [hc, if_true]
+            constructor
+            · exact Or.inl
+            · rintro (h | rfl)
+              · exact h
+              · simpa using hc
+          · simp only [hc]
+            simp [or_comm]
+        apply circLoop_false_entries edges rt start stop fuel path' _ h
+        · intro x hx y hxy
+          rcases (hsub x).1 hx with hx | rfl
+          · rcases h2 x hx y hxy with hy | hy
+            · exact Or.inl ((hsub y).2 (Or.inl hy))
+            · rcases List.mem_cons.1 hy with rfl | hy
+              · exact Or.inl ((hsub _).2 (Or.inr rfl))
+              · exact Or.inr (List.mem_append.2 (Or.inr hy))
+          · obtain ⟨ids', i, e, hl', hi, he, hc, rfl⟩ := hxy
+            rw [hl] at hl'
+            cases hl'
+            by_cases hin : path'.contains e.tgt = true
+            · exact Or.inl (by simpa using hin)
+            · refine Or.inr (List.mem_append.2 (Or.inl (List.mem_reverse.2 ?_)))
+              exact mem_pushed.2 ⟨i, e, hi, he, hc, by simpa using hin, rfl⟩
+        · rcases h3 with h | h
+          · exact Or.inl ((hsub start).2 (Or.inl h))
+          · rcases List.mem_cons.1 h with rfl | h
+            · exact Or.inl ((hsub _).2 (Or.inr rfl))
+            · exact Or.inr (List.mem_append.2 (Or.inr h))
+        · intro x hx
+          rcases (hsub x).1 hx with hx | rfl
+          · exact hp x hx
+          · simp [hl]
+
+theorem isCircular_false_entries (edges : List TEdge) (rt : RefTypes) (start stop : Nat)
+    (h : isCircular edges rt start stop = .ok false) : Entries edges rt start := by
+  unfold isCircular at h
+  apply circLoop_false_entries edges rt start stop _ [] [start] h
+  · intro x hx; cases hx
+  · exact Or.inr (by simp)
+  · intro x hx; cases hx
+
+/-- with a cache entry for every reachable reference the search raises no KeyError -/
+theorem circLoop_no_keyError (edges : List TEdge) (rt : RefTypes) (start stop : Nat)
+    (hent : Entries edges rt start) :
+    ∀ (fuel : Nat) (path stack : List Nat), (∀ x ∈ stack, CReach edges rt start x) →
+      circLoop edges rt stop fuel path stack ≠ .keyError
+  | 0, _, _, _ => by simp [circLoop]
+  | fuel + 1, path, [], _ => by simp [circLoop]
+  | fuel + 1, path, ref :: rest, h1 => by
+    rw [circLoop]
+    by_cases hstop : path.contains stop = true
+    · rw [if_pos hstop]; simp
+    · rw [if_neg hstop]
+      have href := h1 ref (by simp)
+      cases hl : List.lookup ref rt with
+      | none => have := hent ref href; simp [hl] at this
+      | some ids =>
+        simp only []
+        apply circLoop_no_keyError edges rt start stop hent fuel
+        intro x hx
+        rcases List.mem_append.1 hx with hx | hx
+        · obtain ⟨i, e, hi, he, hc, _, rfl⟩ := mem_pushed.1 (List.mem_reverse.1 hx)
+          exact CReach.step href ⟨ids, i, e, hl, hi, he, hc, rfl⟩
+        · exact h1 x (List.mem_cons_of_mem _ hx)
+
+theorem isCircular_ok_of_entries (edges : List TEdge) (rt : RefTypes) (start stop : Nat)
+    (hent : Entries edges rt start) : ∃ b, isCircular edges rt start stop = .ok b := by
+  cases h : isCircular edges rt start stop with
+  | ok b => exact ⟨b, rfl⟩
+  | fuel => exact absurd h (isCircular_no_fuel edges rt start stop)
+  | keyError =>
+    exfalso
+    unfold isCircular at h
+    exact circLoop_no_keyError edges rt start stop hent _ [] [start]
+      (by intro x hx; simp at hx; subst hx; exact CReach.refl _) h
+
+/-- what a later pass needs to know about the type object `i`: if it is still a plain dependency,
+every reference reachable from its target has a cache entry -/
+def Explored (edges : List TEdge) (rt : RefTypes) (i : Nat) : Prop :=
+  ∀ e : TEdge, edges[i]? = some e → e.forward = false → e.native = false → e.circular = false →
+    Entries edges rt e.tgt
+
+theorem Explored.mono {edges edges' : List TEdge} {rt : RefTypes} {i : Nat} (hd : Explored edges rt i)
+    (hm : Mono edges edges') : Explored edges' rt i := by
+  intro e' he' hf hn hc
+  obtain ⟨e, he, t, f, n, cc⟩ := hm i e' he'
+  have hce : e.circular = false := by
+    cases hce : e.circular with
+    | false => rfl
+    | true => rw [cc hce] at hc; cases hc
+  exact t ▸ (hd e he (f.trans hf) (n.trans hn) hce).mono hm
+
+theorem processTypes_explored (rt : RefTypes) (stop : Nat) : ∀ (ids : List Nat) (edges edges' : List TEdge),
+    processTypes rt stop edges ids = some edges' → ∀ i ∈ ids, Explored edges' rt i
+  | [], _, _, _ => by simp
+  | i :: rest, edges, edges', h => by
+    have hspec := processTypes_spec rt stop (i :: rest) edges edges' h
+    rw [processTypes] at h
+    intro k hk
+    cases he : edges[i]? with
+    | none =>
+      simp only [he] at h
+      rcases List.mem_cons.1 hk with rfl | hk
+      · intro e' he' _ _ _
+        obtain ⟨e, he0, _⟩ := hspec.1 _ e' he'
+        rw [he] at he0; cases he0
+      · exact processTypes_explored rt stop rest edges edges' h k hk
+    | some e =>
+      simp only [he] at h
+      by_cases helig : (!e.forward && !e.native && !e.circular) = true
+      · simp only [helig, if_true] at h
+        cases hres : isCircular edges rt e.tgt stop with
+        | ok b =>
+          simp only [hres] at h
+          have hcirc : e.circular = false := by
+            simp only [Bool.and_eq_true, Bool.not_eq_true'] at helig
+            exact helig.2
+          have hm1 := Mono.setCircular edges i b e he hcirc
+          have hm2 := (processTypes_spec rt stop rest _ edges' h).1
+          rcases List.mem_cons.1 hk with rfl | hk
+          · cases b with
+            | false =>
+              have hexp : Explored edges rt k := by
+                intro e2 he2 _ _ _
+                rw [he] at he2; cases he2
+                exact isCircular_false_entries edges rt e.tgt stop hres
+              exact hexp.mono (hm1.trans hm2)
+            | true =>
+              intro e' he' _ _ hc'
+              have h1 : (setCircular edges k true)[k]? = some { e with circular := true } := by
+                unfold Xs.Codegen.setCircular
+                rw [List.getElem?_modify_eq, he]; rfl
+              obtain ⟨e1, he1, _, _, _, c1⟩ := hm2 k e' he'
+              rw [h1] at he1; cases he1
+              rw [c1 rfl] at hc'; cases hc'
+          · exact processTypes_explored rt stop rest _ edges' h k hk
+        | keyError => simp [hres] at h
+        | fuel => simp [hres] at h
+      · simp only [helig] at h
+        rcases List.mem_cons.1 hk with rfl | hk
+        · intro e' he' hf hn hc
+          obtain ⟨e0, he0, _, f, n, c⟩ := hspec.1 _ e' he'
+          rw [he] at he0; cases he0
+          exfalso
+          apply helig
+          simp only [Bool.and_eq_true, Bool.not_eq_true']
+          refine ⟨⟨f.trans hf, n.trans hn⟩, ?_⟩
+          cases hce : e.circular with
+          | false => rfl
+          | true => rw [c hce] at hc; cases hc
+        · exact processTypes_explored rt stop rest edges edges' h k hk
+
+theorem detectCircular_explored (rt : RefTypes) : ∀ (cs : List CClass) (edges final : List TEdge),
+    detectCircular rt edges cs = some final → ∀ c ∈ cs, ∀ i ∈ c.own, Explored final rt i
+  | [], _, _, _ => by simp
+  | c :: cs, edges, final, h => by
+    rw [detectCircular] at h
+    cases hp : processTypes rt c.ref edges c.own with
+    | none => simp [hp] at h
+    | some edges1 =>
+      simp only [hp] at h
+      have hm2 := (detectCircular_spec rt cs edges1 final h).1
+      intro c' hc' i hi
+      rcases List.mem_cons.1 hc' with rfl | hc'
+      · exact (processTypes_explored rt _ _ edges edges1 hp i hi).mono hm2
+      · exact detectCircular_explored rt cs edges1 final h c' hc' i hi
+
+theorem setCircular_same (edges : List TEdge) (i : Nat) (e : TEdge) (he : edges[i]? = some e) :
+    setCircular edges i e.circular = edges := by
+  apply List.ext_getElem?
+  intro j
+  unfold Xs.Codegen.setCircular
+  by_cases hij : i = j
+  · subst hij
+    rw [List.getElem?_modify_eq, he]
+    rfl
+  · rw [List.getElem?_modify_ne _ _ hij]
+
+theorem processTypes_stable (rt : RefTypes) (stop : Nat) (final : List TEdge) : ∀ (ids : List Nat),
+    (∀ i ∈ ids, Done final rt stop i ∧ Explored final rt i) → processTypes rt stop final ids = some final
+  | [], _ => rfl
+  | i :: rest, h => by
+    have ih := processTypes_stable rt stop final rest (fun k hk => h k (List.mem_cons_of_mem _ hk))
+    rw [processTypes]
+    cases he : final[i]? with
+    | none => simpa [he] using ih
+    | some e =>
+      simp only [he]
+      by_cases helig : (!e.forward && !e.native && !e.circular) = true
+      · simp only [helig, if_true]
+        simp only [Bool.and_eq_true, Bool.not_eq_true'] at helig
+        obtain ⟨hd, hx⟩ := h i (by simp)
+        obtain ⟨b, hb⟩ := isCircular_ok_of_entries final rt e.tgt stop (hx e he helig.1.1 helig.1.2 helig.2)
+        have hbf : b = false := by
+          cases b with
+          | false => rfl
+          | true =>
+            exact absurd ((isCircular_spec final rt e.tgt stop true hb).1 rfl)
+              (hd e he helig.1.1 helig.1.2 helig.2)
+        subst hbf
+        simp only [hb]
+        have := setCircular_same final i e he
+        rw [helig.2] at this
+        rw [this]
+        exact ih
+      · simp only [helig]
+        exact ih
+
+/-- **a second pass with the same cache changes nothing and raises nothing** -/
+theorem detectCircular_idempotent (rt : RefTypes) (cs : List CClass) (edges final : List TEdge)
+    (h : detectCircular rt edges cs = some final) : detectCircular rt final cs = some final := by
+  obtain ⟨_, d, _⟩ := detectCircular_spec rt cs edges final h
+  have x := detectCircular_explored rt cs edges final h
+  have key : ∀ (l : List CClass), (∀ c ∈ l, c ∈ cs) → detectCircular rt final l = some final := by
+    intro l
+    induction l with
+    | nil => intro _; rfl
+    | cons c l ih =>
+      intro hl
+      rw [detectCircular, processTypes_stable rt c.ref final c.own
+        (fun i hi => ⟨d c (hl c (by simp)) i hi, x c (hl c (by simp)) i hi⟩)]
+      exact ih (fun c' hc' => hl c' (List.mem_cons_of_mem _ hc'))
+  exact key cs (fun _ h => h)
+
 /-! ### the remaining plain references form an acyclic graph -/
 
 /-- `x` still has a plain (unflagged, non-forward, non-native) attr or choice type pointing to `y` -/
